@@ -252,6 +252,11 @@ pub fn main(args: &[String]) {
                     v.push(format!("{}{}", w.repeat(k), ";\n)'\";\n"));
                 }
             }
+            for (p, w, s) in crate::props::SCALE_CTX {
+                for k in [4usize, 5, 9, 33, 41, 257] {
+                    v.push(format!("{p}{}{s}", w.repeat(k)));
+                }
+            }
             v.extend(crate::grammar::programs(2, true));
             println!("{}", serde_json::to_string(&v).unwrap());
         }
